@@ -103,6 +103,10 @@ def rdOp : Rd (Option Op) := do
   | "sz" => do let w ← Rd.int; let h ← Rd.int; return some (.setSize ⟨w, h⟩)
   | "wr" => do let n ← Rd.num; let bs ← rdBytes n; return some (.rawWrite bs)
   | "in" => do let n ← Rd.num; let bs ← rdBytes n; return some (.input bs)
+  -- `cl` terminal.close(), `al` is_alive(), `ar` async_read(callback): nothing is written, nothing the output side knows changes
+  | "cl" => return some (.input [])
+  | "al" => return some (.input [])
+  | "ar" => return some (.input [])
   | _ => return none
 
 def parseOp (s : String) : Option Op := (rdOp.run (words s)).1
